@@ -930,6 +930,23 @@ func clipStr(s string, n int) string {
 	return s[:n] + fmt.Sprintf("...(+%d)", len(s)-n)
 }
 
+// again decodes an accepted input a second time in the same process and judges the second result like the first:
+// a decoder that remembers something between calls (parsed type descriptors, refinement blobs, scratch values) is
+// right the first time and may be wrong the second. Small inputs only; the statement allows either an error or a
+// conforming value, so only an accepted second result is looked at.
+func (e *executor) again(site string, tc *tcase, tname string, ty cty.Type, dec func() (cty.Value, error)) {
+	if len(tc.input) > 4096 || tc.class == "deep" || tc.class == "long-lie" {
+		return
+	}
+	var v cty.Value
+	var err error
+	if !e.call(site, tc, typeText(ty), func() { v, err = dec() }) || err != nil {
+		return
+	}
+	e.c.Count("clause:second-decode-of-the-same-input:" + site)
+	e.checkValue(site, tc, tname, ty, v)
+}
+
 func (e *executor) runCase(idx int64, tc *tcase, fam int) {
 	c := e.c
 	c.Begin(idx, tc.describe)
@@ -964,6 +981,7 @@ func (e *executor) runCase(idx int64, tc *tcase, fam int) {
 			c.Count("outcome:value:json.Unmarshal:" + tc.class)
 			accepted++
 			e.checkValue("json.Unmarshal", tc, tc.tnames[i], ty, v)
+			e.again("json.Unmarshal", tc, tc.tnames[i], ty, func() (cty.Value, error) { return ctyjson.Unmarshal(in, ty) })
 		}
 		var ity cty.Type
 		var ierr error
@@ -1035,6 +1053,7 @@ func (e *executor) runCase(idx int64, tc *tcase, fam int) {
 				c.Count("outcome:value-with-unknowns:msgpack.Unmarshal")
 			}
 			e.checkValue("msgpack.Unmarshal", tc, tc.tnames[i], ty, v)
+			e.again("msgpack.Unmarshal", tc, tc.tnames[i], ty, func() (cty.Value, error) { return ctymp.Unmarshal(in, ty) })
 		}
 		var ity cty.Type
 		var ierr error
